@@ -424,8 +424,9 @@ package wire
 //@   props C07 C08 C06 C05 C04
 //@   refines iface wire.PortalCache.Execute
 //@   ghostparam wa wi
-//@   requires cache != nil && ctx != nil && WriterReady(writer) && reader != nil
+//@   requires cache != nil && ctx != nil && WriterReady(writer) && reader != nil && nulfree(name)
 //@   requires [portals-wellformed] forall k :: mapdom(cache.portals, k) ==> (cache.portals[k] != nil && cache.portals[k].statement != nil && cache.portals[k].statement.fn != nil)
+//@   ensures [unknown-portal-error] {C06} !old(mapdom(cache.portals, name)) ==> err != nil
 //@   callsite callback:wire.PreparedStatementFn [delivers] {C08 C07} $self == cache.portals[name].statement.fn && $parameters == cache.portals[name].parameters && cast($writer, "*wire.dataWriter").formats == cache.portals[name].formats && cast($writer, "*wire.dataWriter").columns == cache.portals[name].statement.columns && cast($writer, "*wire.dataWriter").client == writer && cast($writer, "*wire.dataWriter").reader == reader && $ctx == ctx
 //@   modifies StmtEffects(writer, reader, ctx), #nExec
 
@@ -702,11 +703,11 @@ package wire
 //@   props C06 C07 C08 C18 C02 C04
 //@   requires HOK(srv, reader, writer, ctx)
 //@   requires [caches-wellformed] PortalsWF(srv)
-//@   ensures [B-reply] {C06} result == nil ==> (#nOut == old(#nOut) + 1 && #last == '2' && #nE == old(#nE))
-//@   ensures [B-no-error-reply] {C06} #nE == old(#nE)
+//@   ensures [B-reply] {C06} (result == nil && #nE == old(#nE)) ==> (#nOut == old(#nOut) + 1 && #last == '2')
+//@   ensures [B-error-once] {C06} #nE <= old(#nE) + 1 && #nE >= old(#nE)
 //@   ensures [err-kind] result != nil ==> !isExceeded(result)
 //@   ensures [no-Z-unless-Sync] {C06} #nZ == old(#nZ)
-//@   atreturn [unknown-name-E] {C06} stmt == nil ==> #nE == old(#nE) + 1
+//@   atreturn [unknown-name-E] {C06} (stmt == nil && err == nil && result == nil) ==> #nE == old(#nE) + 1
 //@   callsite iface:wire.StatementCache.Get [by-name] {C07} $name == statement
 //@   callsite iface:wire.PortalCache.Bind [passes] {C07 C08} $name == name && $statement == stmt && $parameters == parameters && $columns == formats && $ctx == ctx
 //@   ensures [pos-monotone] reader.Buffer.#pos >= old(reader.Buffer.#pos)
@@ -737,6 +738,9 @@ package wire
 //@   requires [caches-wellformed] PortalsWF(srv)
 //@   ensures [sync-one-Z] {C06} (t == 'S' && result == nil) ==> (#nZ == old(#nZ) + 1 && #nOut == old(#nOut) + 1 && #nE == old(#nE))
 //@   ensures [no-Z-unless-Sync] {C06} (t != 'S' && t != 'Q') ==> #nZ == old(#nZ)
+//@   ensures [discard-after-error] {C06} (old(#discard) && t != 'S' && t != 'Q' && t != 'X') ==> (OutSame() && #nParse == old(#nParse) && #nExec == old(#nExec))
+//@   ghostset #discard = true if t != 'Q' && t != 'S' && #nE > old(#nE)
+//@   ghostset #discard = false if t == 'S' || t == 'Q'
 //@   ensures [flush-silent] {C06} t == 'H' ==> (result == nil && OutSame() && #nParse == old(#nParse) && #nExec == old(#nExec))
 //@   ensures [stray-copy-ignored] {C13} (t == 'd' || t == 'c' || t == 'f') ==> (result == nil && OutSame() && #nParse == old(#nParse) && #nExec == old(#nExec))
 //@   ensures [close-complete] {C06} t == 'C' ==> (result == nil && #nZ == old(#nZ) && #nE == old(#nE) && (#failed || (#nOut == old(#nOut) + 1 && #last == '3')))
